@@ -22,6 +22,7 @@ PROPS = {
             {"run": "^TestC05CrashImages", "checks": {"quick": 12, "thorough": 250}, "shards": {"quick": 2, "thorough": 14}, "shrink_s": 45},
             {"run": "^TestC05EmptyFileImages", "rapid": False, "checks": {"quick": 0, "thorough": 0}, "shards": {"quick": 1, "thorough": 1}},
             {"run": "^TestC05(Sigkill|Child)", "checks": {"quick": 60, "thorough": 400}, "shards": {"quick": 1, "thorough": 4}, "shrink_s": 45},
+            {"run": "^TestC05(SyscallCrash|Child)", "checks": {"quick": 3, "thorough": 30}, "shards": {"quick": 1, "thorough": 8}, "shrink_s": 45},
         ],
         "assumptions": [
             "process-crash model: completed system calls survive (no power-loss reordering), as the property says",
@@ -241,8 +242,8 @@ PROPS = {
 META = {
     "C05": {
         "technique": "fault enumeration driven by generated histories: a directory image at every persistence point of every operation, all empty-file states, and real SIGKILL of a child process at drawn journal positions; oracle = reference model before/after the operation in progress",
-        "text": "Every instant at which the disk changes during a generated history (first start, registration, authorizations incl. conflicts, reports, rotations) yields a crash image that is started and compared with the model; all 63 combinations of present-but-empty files are started, registered and used; a child process executing a generated plan is SIGKILLed at a drawn journal line plus a few hundred microseconds and the recovered state must equal the model after the completed operations with the in-flight one applied or not. The enumeration is complete for the instrumented persistence points of the generated histories, not for all histories.",
-        "note": "Enumerates crash points, samples histories. The strace-based syscall-shape sub-check of the design was not built (see DESIGN.md).",
+        "text": "Every instant at which the disk changes during a generated history (first start, registration, authorizations incl. conflicts, reports, rotations) yields a crash image that is started and compared with the model; all 63 combinations of present-but-empty files are started, registered and used; a child process is killed by strace fault injection at the entry of every write(2) on the data files of a generated plan; a child process executing a generated plan is SIGKILLed at a drawn journal line plus a few hundred microseconds and the recovered state must equal the model after the completed operations with the in-flight one applied or not. The enumeration is complete for the instrumented persistence points of the generated histories, not for all histories.",
+        "note": "Enumerates crash points (verif points in the persistence code, and every write(2) on the data files via strace fault injection), samples histories. If strace/ptrace were unavailable the write-level part is skipped and says so in the evidence.",
     },
     "C14": {
         "technique": "schedule-owning injection of write bursts into every gap of the archive loop (complete gap x burst matrix on generated states), concurrent writers, and rate-limit schedules judged by interval arithmetic",
